@@ -37,6 +37,16 @@ type Object struct {
 type SliceVal struct {
 	Arr           *Object // nil for nil slice
 	Off, Len, Cap int
+	// Pre is the path from Arr's value to the array (empty when Arr is the array itself;
+	// non-empty for a slice of an array that is a field of a struct)
+	Pre []int
+}
+
+// elemPtr is the address of element i of the slice.
+func (s SliceVal) elemPtr(i int) Ptr {
+	p := make([]int, 0, len(s.Pre)+1)
+	p = append(append(p, s.Pre...), s.Off+i)
+	return Ptr{Obj: s.Arr, Path: p}
 }
 
 type Ptr struct {
